@@ -374,7 +374,7 @@ func runC07(env *Env, tier string) {
 			refused := false
 			if ch.Chance("storerefuseslogoutreply", 1, 6) {
 				s.E.SF.Fail = func(op string, n int) error {
-					if refused {
+					if refused || op == "IncrTarget" {
 						return nil
 					}
 					refused = true
